@@ -12,6 +12,7 @@ import (
 	"strconv"
 	"strings"
 	"sync"
+	"sync/atomic"
 
 	"github.com/cloudwego/hertz/pkg/app/server/binding"
 	"github.com/cloudwego/hertz/pkg/common/hlog"
@@ -198,6 +199,7 @@ type reqSpec struct {
 	stream    bool                           // the body is a stream of unknown length (a chunked request on a streaming server)
 	only      string                         // "" = Bind; otherwise the single-source entry point BindQuery/BindHeader/BindForm/BindPath
 	emptyJSON bool                           // JSON media type, empty body
+	twoLines  bool                           // wire: the cookies travel in two adjacent cookie lines (HTTP/2 gateways split them)
 	wire      bool                           // the request is parsed from its bytes by a server that keeps header names as sent; the client writes cookie: and content-type: in lower case
 	copied    bool                           // bound on a copy of the request (what RequestContext.Copy hands to a goroutine)
 	broken    int                            // >0: the streamed JSON body fails (the peer goes away) after broken-1 bytes / before its end
@@ -605,8 +607,9 @@ func genReqSpec(r *mon.Rand, fields []fieldSpec) reqSpec {
 	if r.Chance(3) {
 		rs.ctCase = 1 + r.Intn(2)
 	}
-	rs.wire = r.Chance(4) && !rs.stream
+	rs.wire = (r.Chance(4) || (r.Bool() && len(rs.vals["cookie"]) >= 2)) && !rs.stream
 	rs.copied = r.Chance(4) && !rs.stream // (a copy does not include a body stream)
+	rs.twoLines = r.Bool()
 	for _, f := range fields {
 		if _, ok := f.tags["header"]; ok {
 			// (with names kept as sent, which spelling a header tag matches is the application's business)
@@ -619,15 +622,25 @@ func genReqSpec(r *mon.Rand, fields []fieldSpec) reqSpec {
 // throughWire serialises the request and parses it again the way a server with
 // DisableHeaderNamesNormalizing does; field names are case-insensitive, the client of this
 // request writes them in lower case.
-func throughWire(req *protocol.Request) *protocol.Request {
+var splitCount, wireCount int64
+
+func throughWire(req *protocol.Request, twoLines bool) *protocol.Request {
 	body := req.Body()
 	req.Header.SetRequestURIBytes(req.URI().RequestURI())
 	req.Header.SetHostBytes(req.URI().Host())
 	req.Header.SetContentLength(len(body))
 	raw := string(req.Header.Header()) + string(body)
+	if i := strings.Index(raw, "\r\nCookie: "); twoLines && i >= 0 {
+		e := i + 2 + strings.Index(raw[i+2:], "\r\n")
+		if k := strings.Index(raw[i:e], "; "); k > 0 && strings.Contains(raw[i+k+2:e], "=") {
+			raw = raw[:i+k] + "\r\ncookie: " + raw[i+k+2:]
+			atomic.AddInt64(&splitCount, 1)
+		}
+	}
 	for _, n := range []string{"Cookie", "Content-Type", "Content-Length", "Host"} {
 		raw = strings.Replace(raw, "\r\n"+n+": ", "\r\n"+strings.ToLower(n)+": ", 1)
 	}
+	atomic.AddInt64(&wireCount, 1)
 	out := &protocol.Request{}
 	out.Header.DisableNormalizing()
 	if err := reqI.Read(out, mock.NewZeroCopyReader(raw)); err != nil {
@@ -637,7 +650,7 @@ func throughWire(req *protocol.Request) *protocol.Request {
 }
 
 func (rs reqSpec) desc() string {
-	return fmt.Sprintf("%v multipart=%v stream-of-unknown-length=%v media-type-spelling=%d json-media-type-with-empty-body=%v stream-fails-after=%d parsed-from-wire-with-lower-case-names=%v bound-on-a-copy=%v entry-point=Bind%s", rs.vals, rs.multipart, rs.stream, rs.ctCase, rs.emptyJSON, rs.broken-1, rs.wire, rs.copied, rs.only)
+	return fmt.Sprintf("%v multipart=%v stream-of-unknown-length=%v media-type-spelling=%d json-media-type-with-empty-body=%v stream-fails-after=%d parsed-from-wire-with-lower-case-names=%v cookies-in-two-lines=%v bound-on-a-copy=%v entry-point=Bind%s", rs.vals, rs.multipart, rs.stream, rs.ctCase, rs.emptyJSON, rs.broken-1, rs.wire, rs.wire && rs.twoLines, rs.copied, rs.only)
 }
 
 func typeOf(fields []fieldSpec) reflect.Type {
@@ -661,7 +674,7 @@ func typeOf(fields []fieldSpec) reflect.Type {
 func bindOnce(b binding.Binder, t reflect.Type, fields []fieldSpec, rs reqSpec) (map[string]string, error) {
 	req, ps := buildReq(rs, fields)
 	if rs.wire && rs.only == "" {
-		req = throughWire(req)
+		req = throughWire(req, rs.twoLines)
 	}
 	if rs.copied {
 		cp := &protocol.Request{}
@@ -826,6 +839,8 @@ func work(w *mon.W) {
 				w.Shape(mon.Hash64(describe(fields), rs.desc()))
 			}
 		}
+		w.Count("requests_parsed_from_wire", atomic.SwapInt64(&wireCount, 0))
+		w.Count("requests_with_cookies_in_two_lines", atomic.SwapInt64(&splitCount, 0))
 		if w.WantSample() && len(fields) >= 2 {
 			w.Sample(map[string]interface{}{"type": describe(fields)})
 		}
